@@ -1232,7 +1232,7 @@ impl<'a> Query<'a> {
         mut querystring: &'a str,
         attributes: Vec<&'a str>,
     ) -> Result<(Self, &'a str), StamError> {
-        let mut end = 7;
+        let mut end = "SELECT".len(); //(the separator that may follow is whitespace and is trimmed)
         querystring = querystring[end..].trim_start();
         let (qualifier, remainder) = Self::parse_qualifier(querystring)?;
         querystring = remainder;
@@ -1335,7 +1335,7 @@ impl<'a> Query<'a> {
         mut querystring: &'a str,
         attributes: Vec<&'a str>,
     ) -> Result<(Self, &'a str), StamError> {
-        let mut end = 4;
+        let mut end = "ADD".len(); //(the separator that may follow is whitespace and is trimmed)
         querystring = querystring[end..].trim_start();
         let resulttype = match &querystring.split(QUERYSPLITCHARS).next() {
             Some("ANNOTATION") | Some("annotation") => {
@@ -1411,7 +1411,7 @@ impl<'a> Query<'a> {
         mut querystring: &'a str,
         attributes: Vec<&'a str>,
     ) -> Result<(Self, &'a str), StamError> {
-        let mut end = 7;
+        let mut end = "DELETE".len(); //(the separator that may follow is whitespace and is trimmed)
         querystring = querystring[end..].trim_start();
         let resulttype = match &querystring.split(QUERYSPLITCHARS).next() {
             Some("ANNOTATION") | Some("annotation") => {
